@@ -43,6 +43,22 @@ theorem C20_frame : Saltpack.Gen.sharedWrites = [] := by decide
     function values. -/
 theorem C20_globals_known : Saltpack.Gen.globals = ["basex.Base58StdEncoding", "basex.Base58StdEncodingStrict", "basex.Base62StdEncoding", "basex.Base62StdEncodingStrict", "basex.ErrInvalidEncodingLength", "sp.Armor62Params", "sp.ErrBadBoxKey", "sp.ErrBadEphemeralKey", "sp.ErrBadLookup", "sp.ErrBadReceivers", "sp.ErrBadSenderKeySecretbox", "sp.ErrBadSignature", "sp.ErrBadSymmetricKey", "sp.ErrDecryptionFailed", "sp.ErrFailedToReadHeaderBytes", "sp.ErrInsufficientRandomness", "sp.ErrNoDecryptionKey", "sp.ErrNotASaltpackMessage", "sp.ErrOverflow", "sp.ErrPacketOverflow", "sp.ErrPunctuated", "sp.ErrShortSliceOrBuffer", "sp.ErrTrailingGarbage", "sp.ErrUnexpectedEmptyBlock", "sp.ErrWrongNumberOfKeys", "sp.armor62DetachedSignatureFrameChecker", "sp.armor62DetachedSignatureHeaderChecker", "sp.armor62EncryptionFrameChecker", "sp.armor62EncryptionHeaderChecker", "sp.armor62SignatureFrameChecker", "sp.armor62SignatureHeaderChecker", "sp.armor62SigncryptionFrameChecker", "sp.armor62SigncryptionHeaderChecker"] := rfl
 
+/-- **No lock, pool, atomic, channel, hash or buffer state is reachable from a
+    package-level variable** (regenerated from the types of /repo on every run):
+    the effect summary sees stores and calls; a `sync.Pool` or a mutex-guarded
+    cache hung on a shared `*basex.Encoding` mutates through methods of a foreign
+    package instead, and is caught here by its TYPE. -/
+theorem C20_no_sync_in_shared : Saltpack.Gen.sharedHazards = [] := by decide
+
+/-- the expected shape of all memory reachable from package-level variables -/
+def expectedSharedShapes : List String := ["basex.Base58StdEncoding : *basex.Encoding=struct{encode []byte; decodeMap [256]*math/big.Int; skipMap [256]bool; base256BlockLen int; baseXBlockLen int; base int; logOfBase float64; baseBig *math/big.Int; skipBytes string}", "basex.Base58StdEncodingStrict : *basex.Encoding=struct{encode []byte; decodeMap [256]*math/big.Int; skipMap [256]bool; base256BlockLen int; baseXBlockLen int; base int; logOfBase float64; baseBig *math/big.Int; skipBytes string}", "basex.Base62StdEncoding : *basex.Encoding=struct{encode []byte; decodeMap [256]*math/big.Int; skipMap [256]bool; base256BlockLen int; baseXBlockLen int; base int; logOfBase float64; baseBig *math/big.Int; skipBytes string}", "basex.Base62StdEncodingStrict : *basex.Encoding=struct{encode []byte; decodeMap [256]*math/big.Int; skipMap [256]bool; base256BlockLen int; baseXBlockLen int; base int; logOfBase float64; baseBig *math/big.Int; skipBytes string}", "basex.ErrInvalidEncodingLength : error", "sp.Armor62Params : sp.armorParams=struct{BytesPerWord int; WordsPerLine int; Punctuation byte; Encoding *basex.Encoding=struct{encode []byte; decodeMap [256]*math/big.Int; skipMap [256]bool; base256BlockLen int; baseXBlockLen int; base int; logOfBase float64; baseBig *math/big.Int; skipBytes string}}", "sp.ErrBadBoxKey : error", "sp.ErrBadEphemeralKey : error", "sp.ErrBadLookup : error", "sp.ErrBadReceivers : error", "sp.ErrBadSenderKeySecretbox : error", "sp.ErrBadSignature : error", "sp.ErrBadSymmetricKey : error", "sp.ErrDecryptionFailed : error", "sp.ErrFailedToReadHeaderBytes : error", "sp.ErrInsufficientRandomness : error", "sp.ErrNoDecryptionKey : error", "sp.ErrNotASaltpackMessage : error", "sp.ErrOverflow : error", "sp.ErrPacketOverflow : error", "sp.ErrPunctuated : error", "sp.ErrShortSliceOrBuffer : error", "sp.ErrTrailingGarbage : error", "sp.ErrUnexpectedEmptyBlock : error", "sp.ErrWrongNumberOfKeys : error", "sp.armor62DetachedSignatureFrameChecker : sp.FrameChecker=func", "sp.armor62DetachedSignatureHeaderChecker : sp.HeaderChecker=func", "sp.armor62EncryptionFrameChecker : sp.FrameChecker=func", "sp.armor62EncryptionHeaderChecker : sp.HeaderChecker=func", "sp.armor62SignatureFrameChecker : sp.FrameChecker=func", "sp.armor62SignatureHeaderChecker : sp.HeaderChecker=func", "sp.armor62SigncryptionFrameChecker : sp.FrameChecker=func", "sp.armor62SigncryptionHeaderChecker : sp.HeaderChecker=func"]
+
+/-- **The shared state has exactly this shape**: own struct types expanded field
+    by field, so a new field of `basex.Encoding` or `armorParams` (a cache, a
+    scratch buffer, a pool) fails here before any schedule is needed; the fields
+    present are the immutable-after-construction tables `C20_frame` speaks about. -/
+theorem C20_shared_shape : Saltpack.Gen.sharedShapes = expectedSharedShapes := rfl
+
 /-- the byte-list rendering of the same names (kept for kernel-reducible
     checks) is in step with it, character for character -/
 theorem C20_globals_bytes_in_step :
